@@ -8,6 +8,7 @@ package main
 import (
 	"fmt"
 	"github.com/tinode/chat/server/zzverif/memdb"
+	"github.com/tinode/chat/server/zzverif/vatomic"
 	"os"
 	"sort"
 	"strings"
@@ -616,7 +617,12 @@ func TestVerifC10PresAtLoad(t *testing.T) {
 					}
 					memdb.OnReturn = func(name string) { event("after store call " + name) }
 					vsched.OnPoint = func(kind string) { event(kind) }
-					restore := func() { memdb.OnCall, memdb.OnReturn, vsched.OnPoint = prev, nil, nil }
+					vatomic.OnOp = func(write bool) {
+						if !write {
+							event("atomic load") // stores and read-modify-writes are scheduling points already
+						}
+					}
+					restore := func() { memdb.OnCall, memdb.OnReturn, vsched.OnPoint, vatomic.OnOp = prev, nil, nil, nil }
 					vsched.OnKill(restore)
 					if strings.HasSuffix(dir, "plain-attach") {
 						// without {get sub}: b learns about a from {pres} alone
